@@ -30,6 +30,15 @@ func (env *rEnv) typeOf(n *rNode) types.Type {
 				}
 			}
 		}
+	case "index":
+		if bt := env.typeOf(n.Args[0]); bt != nil {
+			if m, ok := bt.Underlying().(*types.Map); ok {
+				return m.Elem()
+			}
+			if sl, ok := bt.Underlying().(*types.Slice); ok {
+				return sl.Elem()
+			}
+		}
 	case "unary":
 		if n.Text == "*" {
 			if bt := env.typeOf(n.Args[0]); bt != nil {
@@ -391,6 +400,28 @@ func (env *rEnv) call(n *rNode) Value {
 			}
 		}
 		return env.fail("nothing was pushed on this path")
+	case "isclosedDB":
+		if iv, ok := env.eval(n.Args[0]).(VIface); ok && iv.Typ != nil {
+			return sym(BoolLit(typeIsPkg(iv.Typ, rosmarPkg, "closedDB")))
+		}
+		return sym(TFalse)
+	case "tracepos":
+		if n.Args[0].Op == "str" {
+			for i, ev := range env.post.trace {
+				if ev.Kind == n.Args[0].Text {
+					return sym(IntLit(int64(i)))
+				}
+			}
+			return sym(IntLit(-1))
+		}
+	case "haskey":
+		if mv, ok := env.eval(n.Args[0]).(VMap); ok {
+			return sym(env.mapHas(mv, env.eval(n.Args[1])))
+		}
+		if _, ok := env.eval(n.Args[0]).(VNil); ok {
+			return sym(TFalse)
+		}
+		return env.fail("haskey of non-map")
 	case "bytesof":
 		r := App(SBytes, "b.ofstr", argT(0))
 		env.post.fact(Not(Eq(r, nullB)))
@@ -540,3 +571,66 @@ type uFun struct {
 }
 
 func (env *rEnv) String() string { return fmt.Sprintf("env(%d vars)", len(env.vars)) }
+
+// mapIndex evaluates m[k] in a contract: the stored value, or the zero value when the key is absent.
+func (env *rEnv) mapIndex(mv VMap, key Value, n *rNode) Value {
+	e := env.e
+	st := env.st()
+	obj, ok := st.heap[mv.Cell].(*MapObj)
+	if !ok {
+		return env.fail("not a map")
+	}
+	if obj.Struct {
+		ks := showValue(key)
+		if v, ok := obj.Entries[ks]; ok {
+			return v
+		}
+		// untouched entry of an input map: the same lazily named object the executor would create
+		if !obj.Fresh && obj.Name != "" {
+			return e.entryValue(st, obj, ks)
+		}
+		return VAbs{Kind: "mapentry", ID: mv.Cell, Data: ks}
+	}
+	kt, ok := key.(VSym)
+	if !ok {
+		return env.fail("map key is not a scalar")
+	}
+	raw := Select(obj.Arr, kt.T, obj.ValSort)
+	if lo, hi, ok := intRange(obj.Typ.Elem()); ok {
+		env.post.fact(And(Ge(raw, mkT(lo, SInt)), Le(raw, mkT(hi, SInt))))
+	}
+	if obj.Has.S != "" {
+		zero := e.zeroOf(obj.Typ.Elem()).(VSym).T
+		return sym(Ite(Select(obj.Has, kt.T, SBool), raw, zero))
+	}
+	return sym(raw)
+}
+
+func (env *rEnv) mapHas(mv VMap, key Value) Term {
+	st := env.st()
+	obj, ok := st.heap[mv.Cell].(*MapObj)
+	if !ok {
+		return TFalse
+	}
+	if obj.Struct {
+		ks := showValue(key)
+		if _, ok := obj.Entries[ks]; ok {
+			if f, ok := obj.Found[ks]; ok {
+				return f
+			}
+			return TTrue
+		}
+		if obj.Fresh {
+			return TFalse
+		}
+		return st.declare(fmt.Sprintf("maphas.%s.%s", sanitize(obj.Name), sanitize(ks)), SBool)
+	}
+	kt, ok := key.(VSym)
+	if !ok {
+		return TFalse
+	}
+	if obj.Has.S != "" {
+		return Select(obj.Has, kt.T, SBool)
+	}
+	return Not(Eq(Select(obj.Arr, kt.T, obj.ValSort), obj.Absent))
+}
